@@ -1,2 +1,33 @@
-(* C06 placeholder: statements are added below as they are proved *)
-From N2kV Require Import Model.SoftFloat Model.NumDefs.
+(* C06 - scaled numeric fields quantise, saturate and mark "not available" correctly.
+   Statements are fixed in Spec/NumSpec.v; this file only closes them and prints their assumptions. *)
+From Coq Require Import ZArith List.
+From N2kV Require Import Model.SoftFloat Model.NumDefs Spec.NumSpec Proofs.NumProofs.
+Local Open Scope Z_scope.
+
+Theorem C06_bytes_roundtrip : bytes_roundtrip_stmt.  Proof. exact bytes_roundtrip. Qed.
+Print Assumptions C06_bytes_roundtrip.
+Theorem C06_set_code : set_code_stmt.  Proof. exact set_code_ok. Qed.
+Print Assumptions C06_set_code.
+Theorem C06_set_code8 : set_code8_stmt.  Proof. exact set_code8_ok. Qed.
+Print Assumptions C06_set_code8.
+Theorem C06_add_double_na : add_double_na_stmt.  Proof. exact add_double_na. Qed.
+Print Assumptions C06_add_double_na.
+Theorem C06_get_double : get_double_stmt.  Proof. exact get_double_ok. Qed.
+Print Assumptions C06_get_double.
+Theorem C06_na_roundtrip : na_roundtrip_stmt.  Proof. exact na_roundtrip. Qed.
+Print Assumptions C06_na_roundtrip.
+Theorem C06_rnd_nearest : rnd_nearest_stmt.  Proof. exact rnd_nearest. Qed.
+Print Assumptions C06_rnd_nearest.
+Theorem C06_own_round_exact : own_round_exact_stmt.  Proof. exact own_round_exact. Qed.
+Print Assumptions C06_own_round_exact.
+Theorem C06_float_roundtrip : float_roundtrip_stmt.  Proof. exact float_roundtrip. Qed.
+Print Assumptions C06_float_roundtrip.
+Theorem C06_int_roundtrip : int_roundtrip_stmt.  Proof. exact int_roundtrip. Qed.
+Print Assumptions C06_int_roundtrip.
+
+(* non-vacuity: the 3-byte signed field with a negative value, the case the unrepaired getter got wrong *)
+Example C06_nonvacuous :
+  get_double 3%nat true 4576918229304087675 0 0 3 (add_double 3%nat true 13846508457334753198 4576918229304087675) = (13846508457334753198, 3)
+  /\ add_double 8%nat true 9221120237041090560 4576918229304087675 = NumDefs.le_bytes 8%nat (orc 8%nat true).
+Proof. split; vm_compute; reflexivity. Qed.
+Print Assumptions C06_nonvacuous.
